@@ -386,7 +386,7 @@ class ModuleInfo:
         self.src = open(path).read() if text is None else text
         self.tree = ast.parse(self.src)
         self.imports = {}         # local name -> qualified ("numpy", "functools.reduce", "catii.ffuncs")
-        self.classes, self.functions, self.consts = {}, {}, set()
+        self.classes, self.functions, self.consts, self.mutable_consts = {}, {}, set(), set()
         for st in self.tree.body:
             if isinstance(st, ast.Import):
                 for a in st.names:
@@ -406,6 +406,11 @@ class ModuleInfo:
                 for t in st.targets:
                     if isinstance(t, ast.Name):
                         self.consts.add(t.id)
+                        v = st.value
+                        immutable = isinstance(v, ast.Constant) or (isinstance(v, ast.BinOp)) or (
+                            isinstance(v, ast.Call) and ast.unparse(v.func) in ("float", "int", "str", "numpy.dtype", "frozenset", "tuple"))
+                        if not immutable:
+                            self.mutable_consts.add(t.id)
 
 
 class Source:
@@ -685,6 +690,7 @@ class Translator:
         self.sites = {}
         self.site_desc = {}
         self.diag = {}
+        self.hidden = None        # variable standing for state that outlives the call (mutable defaults, module globals)
         self.stack = []           # (key, frame)
         self.claims = []          # FreshTracer claims
         self.failclosed = []      # positions of fail-closed calls
@@ -709,6 +715,13 @@ class Translator:
 
     def pos(self, node, fr):
         return (fr.module.name, getattr(node, "lineno", 0))
+
+    def hidden_state(self):
+        """objects that survive the call without being arguments - mutable default values, mutable module
+        globals - are PROTECTED state: results must not depend on history, so nothing may modify them"""
+        if self.hidden is None:
+            self.hidden = self.newvar(keep=True)
+        return self.hidden
 
     def diagvar(self, attr):
         if attr not in self.diag:
@@ -817,7 +830,7 @@ class Translator:
         if n in m.imports:
             return self.qualified(m.imports[n])
         if n in m.consts:
-            return V()
+            return V(var=self.hidden_state()) if n in m.mutable_consts else V()
         if n == "dict":
             return V(tab=["builtins.dict"])
         if n in T.BUILTINS:
@@ -856,7 +869,7 @@ class Translator:
         if attr in m.classes:
             return V(cls=m.classes[attr])
         if attr in m.consts:
-            return V()
+            return V(var=self.hidden_state()) if attr in m.mutable_consts else V()
         if attr in m.imports:
             return self.qualified(m.imports[attr])
         raise Unsupported("unknown module attribute %s.%s" % (m.name, attr))
@@ -1067,7 +1080,7 @@ class Translator:
 
     def refresh_closures(self, fr, v, out, pos):
         """captured variables are captured BY REFERENCE: re-capture when the closure escapes"""
-        for fv in v.funcs:
+        for fv in sorted(v.funcs, key=lambda x: (x.module.name, x.node.lineno, x.node.col_offset)):
             if fv.clo is not None and fv.parent is not None:
                 for x in self.free_vars(fv.parent, fv.node):
                     out.append(STORE(fv.clo, ANY, x, pos))
@@ -1577,7 +1590,8 @@ class Translator:
             else:
                 if d is not None:
                     dv = self.ex(Frame(self, None, fv.module, parent=None, kind="comp"), d, pre)
-                    srcs.append(dv.var)
+                    # a default value is created ONCE, at definition time, and shared by all calls
+                    srcs.append(self.hidden_state() if dv.var is not None else None)
                 for e in extra:
                     srcs.append(self.elems(e.var, pre, pos))
                     nf.fn_unknown.add(p)
@@ -2198,6 +2212,8 @@ def build_program(src, name, module, fn, cls=None, kind="function", spec=None):
         pv = tr.newvar() if not entry_v else sorted(entry_v)[0]
         entry_v = {pv: {TAG_PROT}}
         body, rets = [MUT(pv, ("untranslatable", err))], []
+    if tr.hidden is not None and err is None:
+        entry_v[tr.hidden] = {TAG_PROT}
     body, eh, fnames = compact_fields(body, src)
     raw_vars = tr.nv
     if err is None:
@@ -2347,7 +2363,7 @@ def generate(repo):
     except Exception as e:  # noqa - e.g. SyntaxError in the working tree
         progs, runtime_only, controls = [fail_closed_program("catii (source not translatable)", repr(e)[:300])], [], []
         err = repr(e)[:300]
-    lines = ["(* GENERATED by harness/translate_effects.py from %s/src/catii - do not edit. *)" % repo,
+    lines = ["(* GENERATED by harness/translate_effects.py from <repository>/src/catii - do not edit. *)",
              "From Coq Require Import List Bool Arith.", "From Catii Require Import Effects.IR Effects.Sem Effects.Analysis.",
              "Import ListNotations.", ""]
     lines.append("(* program names (pname):")
